@@ -142,7 +142,8 @@ CLAIMS = {
              "unbound form T.meth(o, ..) to T's specialised helper only when o's static type IS T; that _handle_simple_method_dict_pop "
              "keeps the KeyError-raising helper for d.pop(key) (the miss-ignoring one needs an explicit default and an unused result); "
              "that the call site of bytearray.append(v) for int / long long / unsigned int / Py_ssize_t arguments appends exactly the "
-             "byte values and raises for everything else (L3 on the object model, helpers by contract); (b) for a catalogue of builtin "
+             "byte values and raises for everything else (L3 on the object model, helpers by contract); that list(x) selects the helper which may "
+             "return its argument (__Pyx_PySequence_ListKeepNew) only for an argument living in a compiler temporary; (b) for a catalogue of builtin "
              "calls on C integers (abs, min / max with 2-4 operands of mixed C types and constants, nested min/max, bool()) the C function "
              "the working-tree compiler emits returns, for ALL argument values, the value Python's semantics give the same source text "
              "(reference evaluator dv/pyref.py over the catalogue's own ast, validated against CPython every run). Kernel: these helpers "
@@ -304,7 +305,8 @@ CLAIMS = {
              "Also the float-with-int fast paths of the object-object helpers __Pyx_PyNumber_{Add,Subtract,Multiply}_{xfloat,xint}_object "
              "(PyNumberBinop: exact float of the IEEE operation on a and (double) n, sign of zero included; kernel: one exact float, one exact int). "
              "The call-site conditions themselves are discharged at their source: the gate of Optimize.optimise_numeric_binop (fragment "
-             "unit, all nodes and operators) lets a helper be selected only with |int constant| <= 2**30 and a non-zero constant divisor. "
+             "unit, all nodes and operators) lets a helper be selected only with |int constant| <= 2**30 and a non-zero constant divisor, and for `c / x`, `c // x`, `c % x` the "
+             "helper is told to check for a zero divisor exactly when the node does not ask for C division (three fragment units). "
              "NOT covered: And/Or/Xor (symbolic-symbolic bit operations), Multiply, the non-int operand paths of PyLongBinop, "
              "the second half of optimise_numeric_binop (helper name, extra arguments) and its callers.",
         ref="4 C02"),
